@@ -29,6 +29,8 @@ type c18run struct {
 	txOrder    [2][]string // tokens in order of first verbatim transmission
 	resendSeen bool
 	queued     [2][]string // texts accepted under required encryption and not yet transmitted
+	lastAKEOut [2]int      // index (in the observer's record) of the last key-exchange message the party emitted, -1 none
+	endedAt    [2]int      // length of the observer's record when the party last called End(), -1 never
 }
 
 // wireOf classifies the message a Receive call was given, using the observer's record of emitted units.
@@ -89,6 +91,12 @@ func (r *c18run) onCall(c *sim.Call) {
 		}
 		if len(sec) != 1 || sec[0] != otr3.GoneSecure {
 			r.o.Fail("C18/events-gone-secure", "%s went plaintext->encrypted but the security events were %s", p.Name, secs)
+			return
+		}
+		if r.endedAt[who] >= 0 && r.lastAKEOut[who] < r.endedAt[who] {
+			// everything this party contributed to the exchange dates from before its user called End(): End() abandons
+			// a key exchange in progress, so the peer's late answer must not bring a session into being
+			r.o.Fail("C18/exchange-survived-end", "%s became encrypted by the peer's answer to a key exchange that its user had abandoned with End()", p.Name)
 			return
 		}
 		r.finished[who] = false
@@ -153,6 +161,14 @@ func (r *c18run) onCall(c *sim.Call) {
 	}
 	// transmissions
 	n := len(c.Out)
+	for i := len(s.Seen) - n; i < len(s.Seen) && i >= 0; i++ {
+		if m := s.Seen[i]; m.Raw != nil && m.From == who && m.Hdr.Type != ref.TypeData {
+			r.lastAKEOut[who] = i
+		}
+	}
+	if c.Name == "End" {
+		r.endedAt[who] = len(s.Seen)
+	}
 	for i := len(s.Seen) - n; i < len(s.Seen) && i >= 0; i++ {
 		m := s.Seen[i]
 		var text []byte
@@ -230,7 +246,7 @@ func (r *c18run) onCall(c *sim.Call) {
 func runC18(sc *LifeScript) *sim.Outcome {
 	o := &sim.Outcome{}
 	s := newLifeSess(sc, o)
-	r := &c18run{s: s, o: o, pol: [2]int{sc.PolA, sc.PolB}}
+	r := &c18run{s: s, o: o, pol: [2]int{sc.PolA, sc.PolB}, lastAKEOut: [2]int{-1, -1}, endedAt: [2]int{-1, -1}}
 	for i := 0; i < 2; i++ {
 		r.verbatim[i], r.resent[i] = map[string]int{}, map[string]int{}
 	}
@@ -272,6 +288,7 @@ func runC18(sc *LifeScript) *sim.Outcome {
 			np := sim.NewParty(sim.PartyOpts{Name: w.P[who].Name, Seed: sc.Cfg.SeedA*7 + uint64(len(s.Seen)*2+who) + 1000, Pol: r.pol[who], KeyI: w.P[who].KeyI})
 			w.P[who] = np
 			r.queued[who] = nil
+			r.lastAKEOut[who], r.endedAt[who] = -1, -1
 			s.nDraw[who] = 0
 			r.finished[who] = false
 			w.Q[who] = nil
